@@ -5,11 +5,6 @@ From GV Require Import Base.Prelude Base.PyStr Model.Bins Model.DB Model.Parser 
   Proofs.C02Proofs Proofs.C04Proofs Proofs.C05Proofs.
 Open Scope Z_scope.
 
-Definition parent_vals (r : row) : list str := vals PARENT (r_attrs r).
-Definition links_of (rows : list row) : list rel := flat_map (fun r => map (fun p => mkRel p (r_id r) 1) (parent_vals r)) rows.
-Definition l1_exact (st : ist) : Prop :=
-  forall x, rel_level x = 1 -> (In x (s_rels st) <-> In x (links_of (s_rows st))).
-
 Lemma links_of_app a b : links_of (a ++ b) = links_of a ++ links_of b.
 Proof. unfold links_of. apply flat_map_app. Qed.
 
